@@ -5,6 +5,7 @@ CONSTANTS
   MOps = {"RelabelTaxon", "AnnotateNamespace"}
   MClasses = {"Tree", "TreeList", "Matrix", "Namespace"}
   MConfigs = {"ns_locked", "ns_case", "unrooted", "rooting_none", "weighted", "unlabelled"}
+  XrefShapes = FALSE
   MaxSteps = 1
   MaxCopies = 1
   Bug = "none"
